@@ -59,7 +59,7 @@ FUNCS = {"float": float, "setattr": _setattr, "str": str, "dict": dict, "os.path
          "divmod": divmod, "ceil": math.ceil, "floor": math.floor, "math.ceil": math.ceil, "math.floor": math.floor,
          "prod": math.prod, "math.prod": math.prod, "combinations": itertools.combinations, "itertools.combinations": itertools.combinations,
          "permutations": itertools.permutations, "product": itertools.product, "itertools.product": itertools.product,
-         "mul": operator.mul, "operator.mul": operator.mul, "isgenerator": lambda x: False,
+         "mul": operator.mul, "operator.mul": operator.mul, "isgenerator": __import__("inspect").isgenerator, "inspect.isgenerator": __import__("inspect").isgenerator,
          "map": lambda *a: list(map(*a)), "filter": lambda *a: list(filter(*a)), "frozenset": frozenset, "pow": pow, "round": round,
          "operator.neg": operator.neg, "operator.add": operator.add, "operator.sub": operator.sub, "operator.itemgetter": operator.itemgetter,
          "itemgetter": operator.itemgetter, "itertools.chain": lambda *a: list(itertools.chain(*a)), "chain": lambda *a: list(itertools.chain(*a)),
